@@ -119,9 +119,15 @@ bool Module::initialize(const Json &js_parent)
         return false;
     }
 
-    for (const auto &item : children_) {
-        if (!item.module_ptr->initialize(js_this) && item.required) {
-            LogErr("required module `%s' initialize() fail", item.module_ptr->name().c_str());
+    for (auto iter = children_.begin(); iter != children_.end(); ++iter) {
+        if (!iter->module_ptr->initialize(js_this) && iter->required) {
+            LogErr("required module `%s' initialize() fail", iter->module_ptr->name().c_str());
+            //! roll back, in reverse order, what has been initialized so far
+            while (iter != children_.begin()) {
+                --iter;
+                iter->module_ptr->cleanup();
+            }
+            onCleanup();
             return false;
         }
     }
@@ -142,9 +148,15 @@ bool Module::start()
         return false;
     }
 
-    for (const auto &item : children_) {
-        if (!item.module_ptr->start() && item.required) {
-            LogErr("required module `%s' start() fail", item.module_ptr->name().c_str());
+    for (auto iter = children_.begin(); iter != children_.end(); ++iter) {
+        if (!iter->module_ptr->start() && iter->required) {
+            LogErr("required module `%s' start() fail", iter->module_ptr->name().c_str());
+            //! roll back, in reverse order, what has been started so far
+            while (iter != children_.begin()) {
+                --iter;
+                iter->module_ptr->stop();
+            }
+            onStop();
             return false;
         }
     }
